@@ -306,7 +306,7 @@ theorem walk_node (R : RParser) (D : ToDom) : ∀ (k : Node) (w : WState) (base 
     subst hm0
     rw [nodeOk] at hok
     simp only [Bool.and_eq_true, Bool.not_eq_true'] at hok
-    obtain ⟨⟨⟨hlr, hl⟩, hnt⟩, _⟩ := hok
+    obtain ⟨⟨⟨⟨hlr, hl⟩, hnt⟩, _⟩, _⟩ := hok
     cases hlr' : leafRule R D tl a with
     | none => rw [hlr'] at hlr; cases hlr
     | some tag =>
